@@ -208,4 +208,37 @@ def decodeFields : List (String × Bool × Schema) → List (String × Val) → 
       | none => true) && decodeFields fs kvs
 end
 
+/-! ## (d) loading a section with several instances (`otelcol/internal/configunmarshaler/configs.go`)
+
+`Configs.Unmarshal` iterates the raw section (a Go map: any order); for every id it asks the factory of
+the id's type for a **fresh** default object and overlays the instance's written keys on it.  Objects
+live in a heap so that aliasing between instances is expressible. -/
+
+abbrev Obj := List (String × String)      -- leaf path ↦ rendered value
+abbrev CId := String × String             -- component type, instance name
+
+def setKey (o : Obj) (k v : String) : Obj :=
+  if o.any (fun p => p.1 == k) then o.map (fun p => if p.1 == k then (k, v) else p) else o ++ [(k, v)]
+
+/-- defaults overlaid by exactly the written keys -/
+def overlay (d : Obj) (w : List (String × String)) : Obj := w.foldl (fun o p => setKey o p.1 p.2) d
+
+structure LoadSt where
+  heap : List (Nat × Obj) := []
+  next : Nat := 0
+  out : List (CId × Nat) := []      -- `c.cfgs[id] = cfg`
+deriving Repr
+
+/-- one iteration: `cfg := factory.CreateDefaultConfig()` (a new object), `sub.Unmarshal(&cfg)`, `c.cfgs[id] = cfg` -/
+def loadStep (defaults : String → Obj) (s : LoadSt) (e : CId × List (String × String)) : LoadSt :=
+  { heap := (s.next, overlay (defaults e.1.1) e.2) :: s.heap, next := s.next + 1, out := (e.1, s.next) :: s.out }
+
+def loadAll (defaults : String → Obj) (entries : List (CId × List (String × String))) : LoadSt :=
+  entries.foldl (loadStep defaults) {}
+
+def LoadSt.result (s : LoadSt) (id : CId) : Option Obj := (s.out.lookup id).bind (fun a => s.heap.lookup a)
+
+/-- what the effective configuration shows for a written secret -/
+def redactionMarker : String := "[REDACTED]"
+
 end OtelVerif.C13
